@@ -33,6 +33,28 @@ type overlay struct {
 	patch map[int64]byte
 	pos   int64
 	trace func(off int64, n int)
+	limit int64 // ReadAt buffers larger than this are reported as out-of-proportion allocations
+}
+
+type bigRead struct {
+	n    int
+	site string
+}
+
+// callerSite: innermost go-diskfs frame above the device's ReadAt.
+func callerSite() string {
+	pcs := make([]uintptr, 32)
+	n := runtime.Callers(3, pcs)
+	fr := runtime.CallersFrames(pcs[:n])
+	for {
+		f, more := fr.Next()
+		if strings.HasPrefix(f.Function, "github.com/diskfs/go-diskfs/") && !strings.Contains(f.Function, "/backend.") {
+			return strings.TrimPrefix(f.Function, "github.com/diskfs/go-diskfs/")
+		}
+		if !more {
+			return "unknown-site"
+		}
+	}
 }
 
 type oinfo struct{ size int64 }
@@ -57,6 +79,11 @@ func (o *overlay) ReadAt(p []byte, off int64) (int, error) {
 	}
 	if o.trace != nil {
 		o.trace(off, len(p))
+	}
+	if o.limit > 0 && int64(len(p)) > o.limit {
+		// a read buffer far larger than the image: the allocation behind it is out of proportion.
+		// Detected here, deterministically, at the call site that allocated it.
+		panic(bigRead{n: len(p), site: callerSite()})
 	}
 	if off >= int64(len(o.base)) {
 		return 0, io.EOF
@@ -176,11 +203,16 @@ func walk(fsys filesystem.FileSystem, dir string, depth int, st *walkStats, capB
 func runCase(kind string, base []byte, patch map[int64]byte) (outcome, detail string) {
 	defer func() {
 		if e := recover(); e != nil {
+			if br, ok := e.(bigRead); ok {
+				outcome = "bigalloc"
+				detail = fmt.Sprintf("read buffer of %d bytes for an image of %d bytes @ %s", br.n, len(base), br.site)
+				return
+			}
 			outcome = "panic"
 			detail = fmt.Sprintf("%v @ %s", e, panicSite())
 		}
 	}()
-	dev := &overlay{base: base, patch: patch}
+	dev := &overlay{base: base, patch: patch, limit: int64(len(base))*4 + 64<<20}
 	fsys, err := openFS(kind, dev, int64(len(base)))
 	if err != nil {
 		return "error", "open"
@@ -193,11 +225,14 @@ func runCase(kind string, base []byte, patch map[int64]byte) (outcome, detail st
 	return "data", fmt.Sprintf("dirs=%d files=%d bytes=%d", st.dirs, st.files, st.bytes)
 }
 
-// panicSite: the innermost go-diskfs frame of the panicking stack.
+// panicSite: the innermost go-diskfs frame of the panicking stack, followed (after a space) by its
+// file:line and the calling go-diskfs functions, for the human reader. Only the first word is the site.
 func panicSite() string {
 	st := string(debug.Stack())
 	lines := strings.Split(st, "\n")
 	seenPanic := false
+	var chain []string
+	where := ""
 	for i := 0; i < len(lines); i++ {
 		l := lines[i]
 		if strings.HasPrefix(l, "panic(") {
@@ -213,10 +248,25 @@ func panicSite() string {
 				fn = fn[:j]
 			}
 			fn = strings.TrimPrefix(fn, "github.com/diskfs/go-diskfs/")
-			return fn
+			if len(chain) == 0 && i+1 < len(lines) {
+				w := strings.TrimSpace(lines[i+1])
+				if j := strings.Index(w, " +0x"); j > 0 {
+					w = w[:j]
+				}
+				if j := strings.LastIndex(w, "/"); j > 0 {
+					w = w[j+1:]
+				}
+				where = w
+			}
+			if len(chain) < 4 {
+				chain = append(chain, fn)
+			}
 		}
 	}
-	return "unknown-site"
+	if len(chain) == 0 {
+		return "unknown-site"
+	}
+	return chain[0] + " [" + where + " <- " + strings.Join(chain[1:], " <- ") + "]"
 }
 
 var currentCase atomic.Int64
@@ -248,19 +298,7 @@ func ChildMain(args []string) {
 			time.Sleep(25 * time.Millisecond)
 			runtime.ReadMemStats(&ms)
 			if ms.HeapAlloc > lim {
-				buf := make([]byte, 1<<16)
-				n := runtime.Stack(buf, true)
-				site := "unknown-site"
-				for _, l := range strings.Split(string(buf[:n]), "\n") {
-					if strings.HasPrefix(l, "github.com/diskfs/go-diskfs/") {
-						site = strings.TrimPrefix(l, "github.com/diskfs/go-diskfs/")
-						if j := strings.LastIndex(site, "("); j > 0 {
-							site = site[:j]
-						}
-						break
-					}
-				}
-				fmt.Fprintf(os.Stdout, "k %d oom heap=%dMiB cap=%dMiB @ %s\n", currentCase.Load(), ms.HeapAlloc>>20, capMiB, site)
+				fmt.Fprintf(os.Stdout, "k %d oom heap=%dMiB cap=%dMiB\n", currentCase.Load(), ms.HeapAlloc>>20, capMiB)
 				os.Exit(4)
 			}
 		}
